@@ -285,7 +285,7 @@ def run_scenario_case(ctx: Ctx | None, scenario: str, shard: int, nshards: int, 
 
 
 def _shard(ctx: Ctx, shard: int, nshards: int, thorough: bool) -> None:
-    for scenario in capture.SCENARIOS:
+    for scenario in capture.CORPUS_SCENARIOS:
         try:
             run_scenario_case(ctx, scenario, shard, nshards, thorough)
         except Violation as v:
